@@ -52,10 +52,16 @@ pub struct SockCase {
     pub addr_form: u8,
     /// form of the Unix socket path handed to the constructor: 0 = absolute as bound,
     /// 1 = absolute padded with "/." segments to the longest allowed length (107 bytes),
-    /// 2 = relative to the working directory, 3 = relative and padded to 107 bytes
+    /// 2 = relative to the working directory, 3 = relative and padded to 107 bytes,
+    /// 4 = a path that does not fit into sockaddr_un (>= 108 bytes), 5 = a path with an
+    /// interior NUL: no receiver can exist there, every send must fail and be accounted for
     #[serde(default)]
     pub path_form: u8,
     pub ops: Vec<SOp>,
+}
+
+pub fn path_unusable(form: u8) -> bool {
+    form % 6 >= 4
 }
 
 /// The same socket file spelled differently (see `SockCase::path_form`); falls back
@@ -101,7 +107,9 @@ fn spell_path(path: &std::path::Path, form: u8) -> PathBuf {
         p.pop();
         Some(p)
     };
-    match form % 4 {
+    match form % 6 {
+        4 => PathBuf::from(format!("{}/{}", dir, "x".repeat(MAX + 13 - dir.len().min(MAX)))),
+        5 => PathBuf::from(format!("{}/rx\0.sock", dir)),
         1 => pad("").map(PathBuf::from).unwrap_or_else(|| path.to_path_buf()),
         2 => match rel_prefix() {
             Some(p) if p.len() + abs.len() <= MAX => PathBuf::from(format!("{}{}", p, abs)),
@@ -521,6 +529,11 @@ pub fn run_case(case: &SockCase, ctx: &Ctx) -> SockRun {
             };
         }
     };
+    // a path that cannot be a socket address: nothing is bound there, whatever the history says
+    let unusable = case.transport == Transport::Unix && path_unusable(case.path_form);
+    if unusable {
+        rx.close_rx();
+    }
     let log = Arc::new(Mutex::new(Vec::new()));
     let done = Arc::new(AtomicUsize::new(0));
     let released = Arc::new(AtomicUsize::new(0));
@@ -530,7 +543,7 @@ pub fn run_case(case: &SockCase, ctx: &Ctx) -> SockRun {
         done: done.clone(),
         released: ReleaseSignal(released.clone()),
     };
-    let sink: DynSink = if case.queued { Box::new(QueuingMetricSink::from(rec)) } else { Box::new(rec) };
+    let sink: DynSink = if case.queued { Box::new(crate::queue::build_queuing(rec, util::hash_json(case))) } else { Box::new(rec) };
 
     let cap = match case.buffered {
         None => 0,
@@ -552,7 +565,8 @@ pub fn run_case(case: &SockCase, ctx: &Ctx) -> SockRun {
             _ => None,
         })
         .collect();
-    let fault_free = !case.ops.iter().any(|o| matches!(o, SOp::Clog | SOp::CloseRx | SOp::RotateRx))
+    let fault_free = !unusable
+        && !case.ops.iter().any(|o| matches!(o, SOp::Clog | SOp::CloseRx | SOp::RotateRx))
         && !metrics.iter().flatten().any(|m| m.len() > 65_000);
     let hint: Vec<usize> = if buffered && fault_free {
         let ops: Vec<(Option<Vec<u8>>, bool)> = case
@@ -812,11 +826,17 @@ pub fn run_case(case: &SockCase, ctx: &Ctx) -> SockRun {
                 reconcile(&mut findings, &mut truth, &mut clogged_ok, stray, buffered);
                 rx.close_rx()
             }
-            SOp::ReopenRx => rx.reopen_rx(),
+            SOp::ReopenRx => {
+                if !unusable {
+                    rx.reopen_rx()
+                }
+            }
             SOp::RotateRx => {
                 let stray = rx.unclog();
                 reconcile(&mut findings, &mut truth, &mut clogged_ok, stray, buffered);
-                rx.rotate_rx()
+                if !unusable {
+                    rx.rotate_rx()
+                }
             }
         }
         let misdirected = rx.retired_received();
@@ -1036,7 +1056,7 @@ pub fn sock_case(g: SGen) -> BoxedStrategy<SockCase> {
         ]
         .boxed(),
     };
-    (transport, buffered, any::<bool>(), prop::bool::weighted(g.queued_p), (0u8..3, prop_oneof![3 => Just(0u8), 1 => Just(1u8), 1 => Just(2u8), 1 => Just(3u8)]))
+    (transport, buffered, any::<bool>(), prop::bool::weighted(g.queued_p), (0u8..3, prop_oneof![6 => Just(0u8), 2 => Just(1u8), 2 => Just(2u8), 2 => Just(3u8), 1 => Just(4u8), 1 => Just(5u8)]))
         .prop_flat_map(move |(transport, buffered, nonblocking, queued, (addr_form, path_form))| {
             let cap = buffered.map(|b| b.unwrap_or(512));
             let fault_ops = g.faults && transport == Transport::Unix;
@@ -1109,7 +1129,9 @@ impl Campaign for SockCampaign {
         if case.queued {
             classes.push("through a queuing sink");
         }
-        if case.transport == Transport::Unix && case.path_form % 4 != 0 {
+        if case.transport == Transport::Unix && path_unusable(case.path_form) {
+            classes.push("unix path that cannot be a socket address (too long / interior NUL): every send fails");
+        } else if case.transport == Transport::Unix && case.path_form % 6 != 0 {
             classes.push("unix path given in a relative and/or maximal-length (107 bytes) spelling");
         }
         if run.stats.failed_calls > 0 {
@@ -1648,7 +1670,12 @@ impl Campaign for QueueStatsIdentity {
             }
         };
         let gate = Gate::new();
-        let q = QueuingMetricSink::with_capacity(GatedForward { gate: gate.clone(), inner: BoxSink(inner) }, case.cap as usize);
+        let gf = GatedForward { gate: gate.clone(), inner: BoxSink(inner) };
+        let q = if case.extra % 2 == 0 {
+            QueuingMetricSink::with_capacity(gf, case.cap as usize)
+        } else {
+            QueuingMetricSink::builder().with_capacity(case.cap as usize).with_error_handler(|_e| {}).build(gf)
+        };
         let mut bad: Vec<String> = Vec::new();
         let mut accepted: Vec<String> = Vec::new();
         let mut rejected = 0usize;
